@@ -52,6 +52,8 @@ type ROp struct {
 
 	// set by the harness from a configuration record, never by the specification
 	KeyNonce bool `json:"keynonce,omitempty"`
+	// SuffixPrefix: text in front of the suffix a non-create request names (a suffix is any text the request says)
+	SuffixPrefix string `json:"suffixprefix,omitempty"`
 	// ForceWay > 0: the concrete shape of this operation's failure classes is shape ForceWay-1 (modulo the
 	// number of shapes) instead of the one picked by rotation
 	ForceWay int `json:"forceway,omitempty"`
@@ -733,7 +735,7 @@ func (c *Concretizer) buildRequest(o *ROp, variant int) ([]byte, int) {
 		}
 	}
 
-	reqSuffix := testSuffix
+	reqSuffix := o.SuffixPrefix + testSuffix
 
 	switch o.Type {
 	case "update":
@@ -746,7 +748,7 @@ func (c *Concretizer) buildRequest(o *ROp, variant int) ([]byte, int) {
 			signed["anchorOrigin"] = ao
 		}
 	case "deactivate":
-		signed["didSuffix"] = testSuffix
+		signed["didSuffix"] = reqSuffix
 		if !o.Sfx {
 			// the signed suffix is not the request's: another suffix, no suffix member at all (the shape of the
 			// signed data of a recover), an empty string
